@@ -1080,7 +1080,8 @@ Section Field.
        r_deserialize_map := fun _ _ _ _ _ => Raise Unmodelled;
        r_deserialize_single_field := fun _ _ _ _ _ _ _ => Raise Unmodelled;
        r_construct_fields_map := fun _ _ _ _ _ _ _ _ _ => Raise Unmodelled;
-       r_deserialize_structure_internal := dsi_of |}.
+       r_deserialize_structure_internal := dsi_of;
+       r_get_processed_input := fun _ _ _ _ _ => Raise Unmodelled |}.
 
   Definition F (fuel : nat) : recs := src_field_fix h ext outer_of fuel.
 
@@ -1568,13 +1569,13 @@ Section Struct.
 
   (* the two untranslated helpers construct_fields_map calls, in the configuration the model covers (the class's
      aggregated mapper is the no-op one: every field name maps to itself):
-       get_processed_input(key, mapper, the_dict, ...) is the_dict.get(key) when mapper[key] == key,
+       deep_get(the_dict, key, enable_undefined=False) is the_dict.get(key) for a key without "." (commons.deep_get
+       itself is translated and bridged in Ser/VersionedSrcProofs.v: src_deep_get),
        raise_errs_if_needed(cls, errors) raises InvalidStructureErr exactly when errors is not empty *)
   Definition ext_struct_agrees : Prop :=
-    (forall n m kv eu us,
-        ident_ok n = true -> dict_get m (PStr n) = Some (PStr n) -> py_truthy eu = false ->
-        ext (s2p "get_processed_input") [PStr n; PDict m; PDict kv]
-            [(s2p "enable_undefined", eu); (s2p "use_strict_mapping", us)] =
+    (forall n kv eu,
+        ident_ok n = true -> py_truthy eu = false ->
+        ext (s2p "deep_get") [PDict kv; PStr n] [(s2p "enable_undefined", eu)] =
         Ok (match dict_get kv (PStr n) with Some v => v | None => PNone end)) /\
     (forall cls errs,
         ext (s2p "raise_errs_if_needed") [cls; PList errs] [] =
@@ -1656,9 +1657,27 @@ Section Struct.
   Lemma key_absent_fresh acc n w : key_absent acc n = true -> dict_set acc (PStr n) w = acc ++ [(PStr n, w)].
   Proof. intro H. apply dict_set_fresh. exact H. Qed.
 
-  Lemma cfm_loop_eq (R : recs) cn m kv ku ign (usm camel : pyval) :
+  (* get_processed_input(key, mapper, the_dict, ...) for an entry mapper[key] = s, a str *)
+  Lemma gpi_key (R : recs) n s m kv eu us :
+    ident_ok s = true -> dict_get m (PStr n) = Some (PStr s) -> py_truthy eu = false ->
+    src_get_processed_input h ext R (PStr n) (PDict m) (PDict kv) eu us =
+    Ok (let val := match dict_get kv (PStr s) with Some v => v | None => PNone end in
+        if negb (py_is_none val) || py_truthy us then val
+        else match dict_get kv (PStr n) with Some v => v | None => PNone end).
+  Proof.
+    intros Hs Hm Heu. destruct Hext2 as [Hdg _]. unfold src_get_processed_input.
+    cbn [py_subscript py_dict_getitem py_hashable']. rewrite Hm.
+    cbn [bind cls_isinstance py_isinstance existsb isinstance1 orb].
+    rewrite (Hdg s kv eu Hs Heu). cbn [bind py_or].
+    destruct (negb (py_is_none match dict_get kv (PStr s) with Some v => v | None => PNone end)); cbn [bind orb].
+    - reflexivity.
+    - destruct (py_truthy us); cbn [bind]; [reflexivity|]. rewrite meth_get1 by reflexivity. reflexivity.
+  Qed.
+
+  Lemma cfm_loop_eq (R Rg : recs) cn m kv ku ign (usm camel : pyval) :
     cfm_heap_ok cn = true ->
     forall fds acc errs,
+      (fds <> [] -> forall a b c0 d e0, r_get_processed_input R a b c0 d e0 = src_get_processed_input h ext Rg a b c0 d e0) ->
       noop_on m fds = true ->
       NoDup (map fd_name fds) ->
       (forall fd, In fd fds -> key_absent acc (fd_name fd) = true) ->
@@ -1674,16 +1693,19 @@ Section Struct.
       | Raise x => Raise x
       end.
   Proof.
-    intro Hheap. destruct Hext2 as [Hgpi Hraise].
+    intro Hheap. destruct Hext2 as [_ Hraise].
     unfold cfm_heap_ok in Hheap. apply andb_true_iff in Hheap as [Hheap Hff]. apply andb_true_iff in Hheap as [Hconst Heu].
-    induction fds as [|fd fds IH]; intros acc errs Hnoop Hnd Hfresh Hdsf Hdoc.
+    induction fds as [|fd fds IH]; intros acc errs HgpiR Hnoop Hnd Hfresh Hdsf Hdoc.
     - cbn [enc_fields map src_construct_fields_map_loop1 deser_fields]. rewrite Hraise.
       destruct errs; cbn [is_nil negb bind enc_kw map]; [rewrite app_nil_r|]; reflexivity.
     - destruct (noop_on_in m (fd :: fds) fd Hnoop (or_introl eq_refl)) as [Hm Hid].
       assert (Hnoop' : noop_on m fds = true).
       { unfold noop_on in *. cbn [forallb] in Hnoop. apply andb_true_iff in Hnoop as [_ Hn]. exact Hn. }
       inversion Hnd as [|n0 l0 Hnotin Hnd']; subst.
-      assert (IH' := fun acc errs Hf => IH acc errs Hnoop' Hnd' Hf
+      assert (HgpiR' : fds <> [] -> forall a b c0 d e0,
+                 r_get_processed_input R a b c0 d e0 = src_get_processed_input h ext Rg a b c0 d e0)
+        by (intros _; apply HgpiR; discriminate).
+      assert (IH' := fun acc errs Hf => IH acc errs HgpiR' Hnoop' Hnd' Hf
                       (fun fd0 v nm mp Hin => Hdsf fd0 v nm mp (or_intror Hin))
                       (fun fd0 v Hin => Hdoc fd0 v (or_intror Hin))).
       assert (Hfresh' : forall fd0, In fd0 fds -> key_absent acc (fd_name fd0) = true)
@@ -1698,7 +1720,10 @@ Section Struct.
       assert (Hin : py_in_dyn (PStr (fd_name fd)) (PDict m) = Ok true).
       { cbn [py_in_dyn py_hashable']. unfold dict_has. rewrite Hm. reflexivity. }
       rewrite Hin. cbn [bind].
-      rewrite (Hgpi (fd_name fd) m kv (PBool false) usm Hid Hm eq_refl). cbn [bind].
+      rewrite HgpiR by discriminate. rewrite (gpi_key Rg (fd_name fd) (fd_name fd) m kv (PBool false) usm Hid Hm eq_refl).
+      cbv zeta.
+      assert (Hsame : forall (b : bool) (x : pyval), (if b then x else x) = x) by (intros [] x; reflexivity).
+      rewrite Hsame. cbn [bind].
       rewrite ref_getattr_def'.
       assert (Heu' : py_truthy (match h cn (s2p "_enable_undefined_value") with Some v => v | None => PBool false end) = false).
       { destruct (h cn (s2p "_enable_undefined_value")) as [v|]; [|reflexivity].
@@ -1743,8 +1768,9 @@ Section Struct.
   (* construct_fields_map(field_by_name, keep_undefined, mapper, input_dict, cls, ...) for ANY record of entry points
      whose deserialize_single_field is the model's deser_val on the fields of the class and the values the
      document has for them *)
-  Theorem src_construct_fields_map_gen (R : recs) cn fds m kv ku ign (usm camel : pyval) :
+  Theorem src_construct_fields_map_gen (R Rg : recs) cn fds m kv ku ign (usm camel : pyval) :
     cfm_heap_ok cn = true ->
+    (fds <> [] -> forall a b c0 d e0, r_get_processed_input R a b c0 d e0 = src_get_processed_input h ext Rg a b c0 d e0) ->
     noop_on m fds = true ->
     NoDup (map fd_name fds) ->
     (forall fd v nm mp, In fd fds -> dict_get kv (PStr (fd_name fd)) = Some v -> py_is_none v = false ->
@@ -1758,10 +1784,10 @@ Section Struct.
     | Raise x => Raise x
     end.
   Proof.
-    intros Hheap Hnoop Hnd Hdsf Hdoc. unfold src_construct_fields_map.
+    intros Hheap HgpiR Hnoop Hnd Hdsf Hdoc. unfold src_construct_fields_map.
     assert (Hm : py_or_val (Ok (PDict m)) (fun _ => Ok (PDict [])) = Ok (PDict m)) by (destruct m; reflexivity).
     rewrite Hm. cbn [bind py_dict_items].
-    exact (cfm_loop_eq R cn m kv ku ign usm camel Hheap fds [] [] Hnoop Hnd (fun _ _ => eq_refl) Hdsf Hdoc).
+    exact (cfm_loop_eq R Rg cn m kv ku ign usm camel Hheap fds [] [] HgpiR Hnoop Hnd (fun _ _ => eq_refl) Hdsf Hdoc).
   Qed.
 
   (* ---- with the generated knot of the field-level functions *)
@@ -1786,7 +1812,14 @@ Section Struct.
     end.
   Proof.
     intros Hheap Hnoop Hnd Hcov Hfuel. unfold fields_covered in Hcov. rewrite forallb_forall in Hcov.
-    apply (src_construct_fields_map_gen (F h ext rec fuel) cn fds m kv ku ign usm camel Hheap Hnoop Hnd).
+    apply (src_construct_fields_map_gen (F h ext rec fuel) (F h ext rec (pred fuel)) cn fds m kv ku ign usm camel Hheap);
+      [ | exact Hnoop | exact Hnd | | ].
+    - intros Hne a b c0 d e0. destruct fuel as [|fuel]; [|reflexivity].
+      destruct fds as [|fd0 fds0]; [contradiction|]. exfalso. unfold fields_depth in Hfuel. cbn [map fdepths fold_right] in Hfuel.
+      assert (1 <= fdepth (fd_field fd0))%nat
+        by (destruct (fd_field fd0); cbn [fdepth]; try lia;
+            repeat match goal with |- context [match ?o with Some _ => _ | None => _ end] => destruct o end; lia).
+      lia.
     - intros fd v nm mp Hin Hv _. specialize (Hcov fd Hin). rewrite Hv in Hcov. apply andb_true_iff in Hcov as [Hd Ho].
       apply (src_single_field_eq re_match e ens h ext rec Hrec Hext); [|exact Hd|exact Ho].
       pose proof (fdepths_in (fd_field fd) (map fd_field fds) (in_map fd_field _ _ Hin)). unfold fields_depth in Hfuel. lia.
@@ -1984,7 +2017,8 @@ Section Struct.
        r_deserialize_map := r_deserialize_map Fld;
        r_deserialize_single_field := r_deserialize_single_field Fld;
        r_construct_fields_map := src_construct_fields_map h ext Fld;
-       r_deserialize_structure_internal := dsi_of rec |}.
+       r_deserialize_structure_internal := dsi_of rec;
+       r_get_processed_input := r_get_processed_input Fld |}.
 
   (* the documents covered at this level *)
   Definition struct_covered (ku : bool) (c : classdef) (j : pyval) : bool :=
@@ -2364,9 +2398,9 @@ Definition noop_mapper (c : classdef) : list (pyval * pyval) :=
 (* an oracle for every call that leaves the translated functions in the covered configuration *)
 Definition full_ext (re_match : N -> pystr -> bool) (e : env) (ens : enums) : extern :=
   fun name args kw =>
-    if pystr_eqb name (s2p "get_processed_input") then
+    if pystr_eqb name (s2p "deep_get") then
       match args with
-      | [k; PDict _; PDict kv] => Ok (match dict_get kv k with Some v => v | None => PNone end)
+      | [PDict kv; k] => Ok (match dict_get kv k with Some v => v | None => PNone end)
       | _ => Raise Unmodelled
       end
     else if pystr_eqb name (s2p "raise_errs_if_needed") then
